@@ -1,10 +1,58 @@
-import RgVerif.Model.Sx
+import RgVerif.Driver.C02
+import RgVerif.Model.BinaryOut
 namespace RgVerif.Driver.C14
-open RgVerif
+open RgVerif RgVerif.BinaryOut
 
-/-- Request handler of property C14: `cmd` is the first token of the line, `args` the rest. -/
+def parseDet : Sx → Option Det
+  | .atom "none" => some .none
+  | .atom "quit" => some .quit
+  | .atom "convert" => some .convert
+  | _ => none
+
+def showDet : Det → String
+  | .none => "none"
+  | .quit => "quit"
+  | .convert => "convert"
+
+def parseMode : Sx → Option BinaryMode
+  | .atom "auto" => some .auto
+  | .atom "binary" => some .searchAndSuppress
+  | .atom "text" => some .asText
+  | _ => none
+
+/-- `(m off ln hex)`, `(c off ln hex)`, `(brk)`, `(bin off)` -/
+def parseEv : Sx → Option Ev
+  | .list [.atom "m", o, l, b] => do pure (.matched (← o.nat?) (← l.nat?) (← b.bytes?))
+  | .list [.atom "c", o, l, b] => do pure (.context (← o.nat?) (← l.nat?) (← b.bytes?))
+  | .list [.atom "brk"] => some .ctxBreak
+  | .list [.atom "bin", o] => do pure (.binaryData (← o.nat?))
+  | _ => none
+
+/-- Request handler of property C14. -/
 def handle (cmd : String) (args : List Sx) : String :=
   match cmd, args with
+  -- the roll buffer model (same as C02's, any binary mode)
+  | "c14.lb", _ => RgVerif.Driver.C02.handle "c02.lb" args
+  | "c14.spec", _ => RgVerif.Driver.C02.handle "c02.spec" args
+  -- `c14.det <auto|binary|text> <nullData> <explicit>`: detection mode a file gets
+  | "c14.det", [m, nd, ex] =>
+    match parseMode m, nd.bool?, ex.bool? with
+    | some m, some nd, some ex => showDet (chooseDet ex (fromLowArgs m nd))
+    | _, _, _ => "bad-op"
+  -- `c14.print <det> <path> (events …)`: bytes written by the standard printer
+  | "c14.print", [d, path, .list (.atom "events" :: evs)] =>
+    match parseDet d, path.bytes?, evs.mapM parseEv with
+    | some d, some path, some evs => toHex (render path (stdRun d evs))
+    | _, _, _ => "bad-op"
+  -- `c14.count <det> <binOff|-> <n>`: official match count of the summary printer
+  | "c14.count", [d, bo, n] =>
+    match parseDet d, n.nat? with
+    | some d, some n =>
+      let bo := match bo with | .atom "-" => some none | x => (x.nat?).map some
+      match bo with
+      | some bo => toString (summaryCount d bo n)
+      | none => "bad-op"
+    | _, _ => "bad-op"
   | _, _ => "bad-op"
 
 end RgVerif.Driver.C14
